@@ -852,6 +852,34 @@ variant("notify-join-gt-zero",
 				}"""))
 variant("mail-size-gt-zero",
   ("client.go", """	if _, ok := c.ext["SIZE"]; ok && opts != nil && opts.Size != 0 {""", """	if _, ok := c.ext["SIZE"]; ok && opts != nil && opts.Size > 0 {"""))
+variant("mail-flags-under-one-nil-check",
+  ("client.go", """	if opts != nil && opts.RequireTLS {
+		if _, ok := c.ext["REQUIRETLS"]; ok {
+			sb.WriteString(" REQUIRETLS")
+		} else {
+			return errors.New("smtp: server does not support REQUIRETLS")
+		}
+	}
+	if opts != nil && opts.UTF8 {
+		if _, ok := c.ext["SMTPUTF8"]; ok {
+			sb.WriteString(" SMTPUTF8")
+		} else {
+			return errors.New("smtp: server does not support SMTPUTF8")
+		}
+	}""", """	if opts != nil {
+		if opts.RequireTLS {
+			if _, ok := c.ext["REQUIRETLS"]; !ok {
+				return errors.New("smtp: server does not support REQUIRETLS")
+			}
+			sb.WriteString(" REQUIRETLS")
+		}
+		if opts.UTF8 {
+			if _, ok := c.ext["SMTPUTF8"]; !ok {
+				return errors.New("smtp: server does not support SMTPUTF8")
+			}
+			sb.WriteString(" SMTPUTF8")
+		}
+	}"""))
 if sys.argv[1:] == ['--export']:
     out = [{"id": "benign-" + n, "edits": [{"file": f, "old": o, "new": w} for f, o, w in V[n]]} for n in V]
     json.dump(out, open('/verif/liveness/benign.json', 'w'), indent=1)
